@@ -42,6 +42,20 @@ VALUES = {
 BASIC = set('siuybdxtnqog')
 
 
+def foreign_wrapper(r, sig, v):
+    """The same value as a typed wrapper of *another* DBus type (it still fits the declared one): the declared
+    type, not the wrapper, decides what Get returns."""
+    from txdbus import marshal as M
+    if sig in 'iuxtnqy' and isinstance(v, int) and not isinstance(v, bool):
+        cands = [c for c, (lo, hi) in {'y': (0, 255), 'n': (-2**15, 2**15 - 1), 'q': (0, 2**16 - 1), 'i': (-2**31, 2**31 - 1),
+                                       'u': (0, 2**32 - 1), 'x': (-2**63, 2**63 - 1), 't': (0, 2**64 - 1)}.items()
+                 if c != sig and lo <= v <= hi]
+        if cands:
+            c = r.choice(cands)
+            return {'y': M.Byte, 'n': M.Int16, 'q': M.UInt16, 'i': M.Int32, 'u': M.UInt32, 'x': M.Int64, 't': M.UInt64}[c](v)
+    return v
+
+
 def norm(v):
     if isinstance(v, tuple):
         return [norm(x) for x in v]
@@ -195,6 +209,8 @@ def run_case(ctx, seed, idx):
             sig, access, emits = d.props[key]
             if op == 'assign':
                 v = r.choice(VALUES[sig])
+                if r.random() < 0.3:
+                    v = foreign_wrapper(r, sig, v)
                 w['history'].append(['assign', list(key), repr(v)])
                 try:
                     setattr(obj, d.attr[key], v)
